@@ -88,6 +88,10 @@ class _Lambda:
         return sub.fold(self.node.body)
 
 
+class _Expanded(ast.Call):
+    """a call whose `*args` have been replaced by the evaluated values (shown to hooks)"""
+
+
 class _Eager(list):
     """the elements of a one-shot producer (an itertools object), computed eagerly: a list for whoever walks it once, and a
     single shared position for whoever pulls elements out with next() - `iter(p) is p` for these in Python"""
@@ -404,6 +408,14 @@ class Folder:
 
     def _fold(self, e: ast.expr) -> Any:
         if self.hook is not None:
+            if isinstance(e, ast.Call) and any(isinstance(a, ast.Starred) for a in e.args) and not isinstance(e, _Expanded):
+                # the rules' hooks model calls by their positional arguments: they are shown `f(*xs, y)` with the unpacked
+                # values in place (the same call, evaluated arguments as constants)
+                from .absint import _Const
+
+                flat = _Expanded(func=e.func, args=[_Const(v_) for v_ in fold_starred(self, e.args)], keywords=e.keywords)
+                ast.copy_location(flat, e)
+                e = flat  # (the arguments are evaluated once: whoever handles the call sees the values)
             r = self.hook(e, self)
             if r is not NotImplemented:
                 return r
@@ -846,6 +858,9 @@ class Folder:
                     return fv0.call(self, [self.fold(a) for a in args])
                 if type(fv0).__name__ == "_BoundMethod":
                     return fv0.call(self, [self.fold(a) for a in args], {k.arg: self.fold(k.value) for k in e.keywords if k.arg})
+                if isinstance(fv0, (ClassInfo, _TypeOf, _Partial)) or type(fv0).__name__ == "FnRef":
+                    # a field that holds a class / function of the repository (a factory stored on a record): called as a value
+                    return call_value(self, fv0, fold_starred(self, args), {k.arg: self.fold(k.value) for k in e.keywords if k.arg})
             if isinstance(recv, (ClassInfo, _TypeOf)) and self.repo is not None and e.func.attr != "__init__":
                 k_ = recv if isinstance(recv, ClassInfo) else recv.cls
                 m_ = self.repo.lookup_method(k_, e.func.attr)
@@ -897,7 +912,7 @@ class Folder:
                 repo_callee = None
             if not isinstance(repo_callee, (FuncInfo, ClassInfo)):
                 repo_callee = None
-        if e.keywords and repo_callee is None and name not in ("int", "dict", "enumerate", "itertools.product", "itertools.groupby", "groupby", "sorted", "max", "min", "functools.partial", "partial", "int.from_bytes") and not (isinstance(e.func, ast.Name) and isinstance(self.env.get(e.func.id), Abstract)) and not (isinstance(e.func, ast.Attribute) and dotted(e.func) and dotted(e.func).split(".")[0] in self.env):
+        if e.keywords and repo_callee is None and not isinstance(e.func, (ast.Call, ast.Subscript, ast.IfExp)) and name not in ("int", "dict", "enumerate", "itertools.product", "itertools.groupby", "groupby", "sorted", "max", "min", "functools.partial", "partial", "int.from_bytes") and not (isinstance(e.func, ast.Name) and isinstance(self.env.get(e.func.id), Abstract)) and not (isinstance(e.func, ast.Attribute) and dotted(e.func) and dotted(e.func).split(".")[0] in self.env):
             raise Unfoldable(unparse(e))
         if isinstance(e.func, ast.Attribute) and e.func.attr == "to_bytes" and 1 <= len(args) <= 2:
             v = self.fold(e.func.value)
